@@ -74,6 +74,7 @@ type state struct {
 	self    bool   // bin is the harness executable itself (see selfexec.go)
 	binErr  string
 	times   map[string]float64 // seconds spent per op kind (evidence)
+	fam     map[string]int     // eval ops for which Check offered an autofix, by Eval's outcome (evidence)
 }
 
 type snap struct {
@@ -189,14 +190,8 @@ func resetLine() []string {
 	var c int64
 	ev := newEvaler(&c, "/nonexistent")
 	var mods []string
-	for _, m := range moduleCandidates {
-		_, fixes, _ := ev.Check(parse.Source{Name: "[probe]", Code: "put $" + m + ":x"}, nil)
-		for _, f := range fixes {
-			if f == "use "+m {
-				mods = append(mods, common.Hex(m))
-				break
-			}
-		}
+	for _, m := range probeModules(ev) {
+		mods = append(mods, common.Hex(m))
 	}
 	ms := "."
 	if len(mods) > 0 {
@@ -252,11 +247,12 @@ func run(c *common.Ctx) error {
 		Rule: "histories on one real Evaler each (reset; then eval/check ops): generated programs with observable side effects " +
 			"(value and byte output, set of pre-declared globals, file writes, a counting builtin, E: variable, new globals) with one " +
 			"injected static error (every compiler error site reachable from source text, parse errors) at a random position, at top level " +
-			"or nested in unexecuted lambdas, plus valid programs and token soup; `bin` ops run the real binary `elvish -compileonly -json -c`; " +
+			"or nested in unexecuted lambdas, plus valid programs and token soup; family modns: references (command head, variable, lvalue) into the " +
+			"namespace of a module the evaler knows but the code has not imported, followed by further references into it, in one form / one scope / nested scopes; `bin` ops run the real binary `elvish -compileonly -json -c`; " +
 			"non-trivial = every op except reset; distinct by op line",
 		Timeout: 60 * time.Second,
 		NewState: func(c *common.Ctx) any {
-			st := &state{base: filepath.Join(c.Dir, "c16-work"), times: map[string]float64{}}
+			st := &state{base: filepath.Join(c.Dir, "c16-work"), times: map[string]float64{}, fam: map[string]int{}}
 			os.MkdirAll(st.base, 0o755)
 			t0 := time.Now()
 			if c.Thorough() || os.Getenv("C16_REAL_BINARY") == "1" {
@@ -269,6 +265,7 @@ func run(c *common.Ctx) error {
 			c.Extra["compileonly_binary"] = map[bool]string{true: "harness executable re-executed as cmd/elvish (C16_AS_ELVISH=1)", false: "cmd/elvish built from the tree"}[st.self]
 			st.times["build-binary"] = time.Since(t0).Seconds()
 			c.Extra["seconds_by_op_kind"] = st.times
+			c.Extra["eval_ops_where_check_offers_autofix"] = st.fam
 			st.reset()
 			return st
 		},
@@ -369,7 +366,8 @@ func impl(sti any, f []string) string {
 		st.last = o
 		// the static check first, on the same state
 		s0 := st.snapshot()
-		o.chkParse, _, o.chkCompile, o.checkPanic = safeCheck(st.ev, src)
+		var chkFixes []string
+		o.chkParse, chkFixes, o.chkCompile, o.checkPanic = safeCheck(st.ev, src)
 		s1 := st.snapshot()
 		k, d := s0.diff(s1)
 		o.chkPure, o.chkDiff = k == "", d
@@ -385,6 +383,17 @@ func impl(sti any, f []string) string {
 		pes := parseErrRanges(res.e)
 		ces := eval.UnpackCompilationErrors(res.e)
 		o.parseErrs, o.compileErrs = len(pes), len(ces)
+		if len(chkFixes) > 0 {
+			// evidence that the inputs on which the module names given to compile matter are reached
+			switch {
+			case len(pes) > 0:
+				st.fam["check-offers-autofix,eval-parse-error"]++
+			case len(ces) > 0:
+				st.fam["check-offers-autofix,eval-compile-error"]++
+			default:
+				st.fam["check-offers-autofix,eval-ran"]++
+			}
+		}
 		if len(pes) == 0 && len(ces) == 0 {
 			names := make([]string, len(o.after.names))
 			for i, n := range o.after.names {
